@@ -601,7 +601,7 @@ FILE_PROPS = {
     "regular_expressions.rs": ["C01", "C03", "C16", "C07", "C05", "C18", "C19", "C02", "C10", "C17"],
     "smt_regular_expressions.rs": ["C10", "C07", "C01", "C17"],
     "store.rs": ["C07", "C01"],
-    "bfs_queues.rs": ["C19", "C02", "C14", "C05"],
+    "bfs_queues.rs": ["C19", "C02", "C14", "C05", "C07"],
     "labeled_queues.rs": ["C05"],
     "automata.rs": ["C13", "C14", "C04", "C02"],
     "compact_tables.rs": ["C14", "C04"],
